@@ -35,6 +35,11 @@ func PathFor(in interface{}) (string, error) {
 		return "", errors.New("can not calculate path to nil")
 	}
 
+	rv := reflect.Indirect(reflect.ValueOf(in))
+	if !rv.IsValid() {
+		return "", fmt.Errorf("can not calculate path to nil %T", in)
+	}
+
 	switch s := in.(type) {
 	case string:
 		return join(s), nil
@@ -42,11 +47,6 @@ func PathFor(in interface{}) (string, error) {
 		return join(string(s)), nil
 	case Pathable:
 		return join(s.ToPath()), nil
-	}
-
-	rv := reflect.Indirect(reflect.ValueOf(in))
-	if !rv.IsValid() {
-		return "", fmt.Errorf("can not calculate path to nil %T", in)
 	}
 
 	ni, err := name.Interface(in)
